@@ -36,6 +36,8 @@ type HarnessSpec struct {
 	RedirectSet string             `json:"redirect_set"`
 	ForkIn  []string               `json:"fork_in"`
 	Havoc   []string               `json:"havoc"`
+	ForkAll []string               `json:"fork_all"`
+	Solver  []string               `json:"solver"`
 }
 
 type Props struct {
@@ -108,7 +110,16 @@ func main() {
 			fmt.Println("LOAD ERROR:", err)
 			os.Exit(2)
 		}
-		e, err := sym.NewEngine(p, sym.Options{Debug: *debug, Timeout: 60 * time.Second})
+		var sargv []string
+		if sv := os.Getenv("VERIF_SOLVER"); sv != "" {
+			sargv = strings.Fields(sv)
+		}
+		qt := 60 * time.Second
+		if q := os.Getenv("VERIF_QTIMEOUT"); q != "" {
+			n, _ := strconv.Atoi(q)
+			qt = time.Duration(n) * time.Second
+		}
+		e, err := sym.NewEngine(p, sym.Options{Debug: *debug, Timeout: qt, SolverArgv: sargv})
 		if err != nil {
 			panic(err)
 		}
@@ -137,6 +148,9 @@ func main() {
 				}
 				for _, f := range h.Havoc {
 					e.Havoc[expandName(f)] = true
+				}
+				for _, f := range h.ForkAll {
+					e.ForkAll[expandName(f)] = true
 				}
 			}
 		}
@@ -364,7 +378,7 @@ func runProp(prop, tier string, workers int, debug bool, only string, noReplay b
 				if qto == 0 {
 					qto = 30 * time.Second
 				}
-				e, err := sym.NewEngine(progs[j.h.Arch], sym.Options{Timeout: qto, Debug: debug, Unwind: j.h.Unwind, MaxPaths: j.h.MaxPaths, MaxViol: 1})
+				e, err := sym.NewEngine(progs[j.h.Arch], sym.Options{Timeout: qto, Debug: debug, Unwind: j.h.Unwind, MaxPaths: j.h.MaxPaths, MaxViol: 1, SolverArgv: j.h.Solver})
 				if err != nil {
 					rc <- jobResult{j, &sym.Result{Harness: j.h.Fn, Args: j.args, Err: err.Error()}}
 					continue
@@ -380,6 +394,9 @@ func runProp(prop, tier string, workers int, debug bool, only string, noReplay b
 				}
 				for _, f := range j.h.Havoc {
 					e.Havoc[expandName(f)] = true
+				}
+				for _, f := range j.h.ForkAll {
+					e.ForkAll[expandName(f)] = true
 				}
 				e.KnownOpen = map[string]bool{}
 				for id := range openKnown {
